@@ -232,7 +232,7 @@ theorem get_coupled {P : Sketch → Prop} (L : SketchLaws P) {p : Params} (hq : 
   obtain ⟨h1, h2, h3⟩ := maintain_spec hq hi.inv
   have hc1 : Coupled p (maintain p s) g := coupled_shrinks hc h2 h3.now
   have hsk1 : P (maintain p s).sk := by rw [h3.sk]; exact hi.sk
-  obtain ⟨sk', h4, _⟩ := sketchIncrement_spec L hq hsk1 (p.hash k)
+  obtain ⟨sk', h4, _, _⟩ := sketchIncrement_spec L hq hsk1 (p.hash k)
   have hi2 : InvU p { maintain p s with sk := sk' } :=
     invU_of h1 (structP_congr h1.struct rfl rfl rfl rfl rfl) rfl rfl rfl
   have hc2 : Coupled p { maintain p s with sk := sk' } g := coupled_congr hc1 rfl rfl rfl rfl
@@ -723,7 +723,7 @@ theorem insert_coupled {P : Sketch → Prop} {p : Params} (hq : NoQuirks p)
     {s : UState} {g : Ghost} (hi : Inv P p s) (hc : Coupled p s g) (k v : Nat) :
     Coupled p (insert p s k v) (ghostStep .unsync g (.ins k v) .ok) := by
   obtain ⟨h1, h2, h3⟩ := maintain_spec hq hi.inv
-  have hi1 : Inv P p (maintain p s) := ⟨h1, by rw [h3.sk]; exact hi.sk⟩
+  have hi1 : Inv P p (maintain p s) := hi.of_aux h1 h3.sk h3.skOn
   have hc1 : Coupled p (maintain p s) g := coupled_shrinks hc h2 h3.now
   have hg : ghostStep .unsync g (.ins k v) .ok = insertedG g k v := rfl
   rw [hg]
